@@ -819,6 +819,7 @@ func report(repo, prop, tier string, results []*WorkerResult, hfs []harnessFile,
 	exhausted := true
 	proved, concrete := 0, 0
 	reachByHarness := map[string]int{}
+	decided := map[string]bool{}
 	unsupByHarness := map[string]string{}
 	vacReported := map[string]bool{}
 	for k, r := range results {
@@ -879,6 +880,9 @@ func report(repo, prop, tier string, results []*WorkerResult, hfs []harnessFile,
 		sort.Strings(labels)
 		for _, label := range labels {
 			cs := byLabel[label]
+			if decided[r.Harness+"|"+label] {
+				continue // already confirmed from another shard of this harness
+			}
 			confirmed := false
 			var confirmedPath string
 			tries := 0
@@ -908,6 +912,7 @@ func report(repo, prop, tier string, results []*WorkerResult, hfs []harnessFile,
 			if !confirmed {
 				continue
 			}
+			decided[r.Harness+"|"+label] = true
 			isKnown := false
 			for _, kf := range known {
 				if kf.Status != "fixed" && kf.Property == prop && kf.Harness == r.Harness && kf.Label == label {
